@@ -193,7 +193,12 @@ def _all_concrete(xs):
 
 
 class LoopSpec:
-    def __init__(self, invariant=None, decreases=None, modifies=(), shapes=None, fingerprint=None, unroll=None):
+    def __init__(self, invariant=None, decreases=None, modifies=(), shapes=None, fingerprint=None, unroll=None, counter=False):
+        # counter=True (while loops): the invariant's view carries the ghost iteration counter `i_` = number of
+        # completed iterations (0 at inv-init, an arbitrary k >= 0 at the loop head, k + 1 at inv-preserve), and the
+        # state in which the loop was left -- its locals, `i_` (completed iterations) and `broke_` (left by `break`) --
+        # is kept as a View in st.ghost["loop_end"][ordinal] for the postconditions (witnesses of "there is a k").
+        self.counter = counter
         self.invariant = invariant
         self.decreases = decreases
         self.modifies = tuple(modifies)
@@ -309,10 +314,21 @@ class Interp:
 
     def run_function(self, st, f: FnVal, args, kwargs):
         node = f.ref.node
-        if any(isinstance(n, (ast.Yield, ast.YieldFrom)) for n in self._own_nodes(node)):
+        is_gen = any(isinstance(n, (ast.Yield, ast.YieldFrom)) for n in self._own_nodes(node))
+        if is_gen and not (getattr(f, "top_level", False) and getattr(getattr(self.task, "c", None), "generator_as_list", False)):
             raise Unsupported(f"generator function {f.ref.key}")
         frame = Frame(f, f.ref.mod, parent=f.closure)
         self.bind_params(st, f, frame, args, kwargs)
+        if is_gen:
+            # A generator function as the function under contract (opt-in: `generator_as_list = True`): what is verified
+            # is the generator RUN TO EXHAUSTION IN ONE GO -- `list(f(...))` -- i.e. no code of the consumer runs between two
+            # yields (so nothing the body reads changes under it), and an exception the body raises at any point counts
+            # as raised.  The values yielded so far are the ghost list `yielded_` (a local: loop invariants may speak
+            # about it, loops that yield list it in `LoopSpec.modifies`); list values are yielded BY VALUE (their
+            # content at the moment of the yield).  The result is that list; `return` inside the body ends it.
+            # Only statement-level `yield v` / `yield from iterable` are modelled (the value sent in is unused).
+            # Cross-check against CPython: spec/xcheck_cases.py x_generator (through its list() wrapper).
+            frame.locals["yielded_"] = LRef(())
         a = node.args
         if (a.posonlyargs or a.args) and f.defcls is not None:
             frame.self_obj = frame.locals.get((a.posonlyargs + a.args)[0].arg)
@@ -322,14 +338,14 @@ class Interp:
         try:
             self.exec_block(st, node.body, frame)
         except _Return as r:
-            return r.value
+            return frame.locals["yielded_"] if is_gen else r.value
         finally:
             self.call_depth -= 1
             if getattr(f, "top_level", False):
                 # ghost: the locals of the function under verification at its exit, so that a postcondition of the
                 # form "there is a column c such that ..." can name its witness (read-only, contract side)
                 st.ghost["exit_locals"] = dict(frame.locals)
-        return None
+        return frame.locals["yielded_"] if is_gen else None
 
     @staticmethod
     def _own_nodes(fn_node):
@@ -363,7 +379,24 @@ class Interp:
             return  # docstring
         if self._is_dropped_call(s.value):
             return
+        if isinstance(s.value, (ast.Yield, ast.YieldFrom)):
+            return self._yield(st, s.value, fr)
         self.eval(st, s.value, fr)
+
+    def _yield(self, st, e, fr):
+        """Statement-level `yield v` / `yield from it` in a generator run to exhaustion (see run_function)."""
+        f = fr
+        while f is not None and "yielded_" not in f.locals:
+            f = f.parent
+        if f is None or f.fn is None or f.fn.ref.node is not fr.fn.ref.node:
+            raise Unsupported("yield outside the generator function under contract")
+        out = f.locals["yielded_"]
+        if isinstance(e, ast.Yield):
+            v = st.force(self.eval(st, e.value, fr)) if e.value is not None else None
+            out.seq = Q.seq_append(out.seq, Q.row_value(v) if isinstance(v, LRef) else v)
+            return
+        it = self.iter_view(st, st.force(self.eval(st, e.value, fr)))
+        out.seq = Q.seq_concat(out.seq, it.seq if isinstance(it, LRef) else it)
 
     def _is_dropped_call(self, e):
         """logger.* / warnings.warn calls: dropped (arguments not evaluated) — see DESIGN §2.1."""
@@ -407,12 +440,26 @@ class Interp:
             obj = self.eval(st, t.value, fr)
             cur = self.getattr(st, obj, mangle(fr, t.attr), fr)
             rhs = self.eval(st, s.value, fr)
+            if isinstance(cur, LRef) and isinstance(s.op, ast.Add):
+                # `obj.attr += iterable` on a list is list.__iadd__: the list object is extended IN PLACE (every alias
+                # sees it) and then stored back -- not `obj.attr = obj.attr + iterable` (a new list).  As for a Name
+                # target above; cross-checked against CPython by spec/xcheck_cases.py:x_iadd_alias.
+                from .builtins_model import call_method
+
+                call_method(self, st, cur, "extend", [rhs], {})
+                self.setattr(st, obj, mangle(fr, t.attr), cur, fr)
+                return
             self.setattr(st, obj, mangle(fr, t.attr), self.binop(st, s.op, cur, rhs), fr)
         elif isinstance(t, ast.Subscript):
             obj = self.eval(st, t.value, fr)
             idx = self.eval_index(st, t.slice, fr)
             cur = self.subscript(st, obj, idx)
             rhs = self.eval(st, s.value, fr)
+            if type(cur) is LRef and isinstance(s.op, ast.Add):
+                from .builtins_model import call_method
+
+                call_method(self, st, cur, "extend", [rhs], {})  # in place, as above (x[i] already holds `cur`)
+                return
             self.store_subscript(st, obj, idx, self.binop(st, s.op, cur, rhs))
         else:
             raise Unsupported("augmented assignment target")
@@ -435,6 +482,10 @@ class Interp:
                 items = [Q.seq_get(v, i) for i in range(n)]
             elif v is None:
                 raise PyRaise(SExc(TypeError, ("cannot unpack non-iterable NoneType object",)))
+            elif isinstance(v, SOpaque) and hasattr(__import__("pyvc.api", fromlist=["PROTOCOLS"]).PROTOCOLS.get(v.kind), "unpack"):
+                # an opaque individual its protocol can take apart (`unpack(ip, st, obj, n)` -> n items, raising the
+                # ValueError / TypeError CPython raises when it is not a sequence of exactly n items)
+                items = __import__("pyvc.api", fromlist=["PROTOCOLS"]).PROTOCOLS[v.kind].unpack(self, st, v, n)
             else:
                 raise Unsupported(f"unpack of {type(v).__name__}")
             for e, x in zip(t.elts, items):
@@ -652,16 +703,29 @@ class Interp:
                     if spec and spec.unroll:
                         raise PathEnd()  # bounded unrolling: cut (stated bound)
                     raise Unsupported(f"while loop without invariant exceeds {limit} iterations")
-        name = f"{fr.fn.ref.qualname}/loop{self.task.loop_ordinal(fr.fn.ref, s)}"
-        view0 = self.loop_view(fr, None)
+        ordinal = self.task.loop_ordinal(fr.fn.ref, s)
+        name = f"{fr.fn.ref.qualname}/loop{ordinal}"
+        counting = getattr(spec, "counter", False)
+        entry = self._entry_snapshot(fr)  # `at_entry` of the invariant's view: the locals when the loop was reached
+        view0 = self.loop_view(fr, 0 if counting else None, None, entry)
         self.check_inv(st, spec, view0, f"{name}/inv-init")
-        entry = self._entry_snapshot(fr)  # as for `for` loops: the invariant may refer to `at_entry` / `trace_mark_`
         self.havoc_loop(st, s, spec, fr)
-        view = self.loop_view(fr, None, None, entry)
+        k = None
+        if counting:
+            k = st.fresh_int("iter")  # ghost: the number of completed iterations, arbitrary
+            st.assume(V._cmp(">=", k, 0))
+        view = self.loop_view(fr, k, None, entry)
         self.assume_inv(st, spec, view)
         watched = self._watch_lists(s, spec, fr)
+
+        def left(broke):
+            if counting:
+                end = dict(self._entry_snapshot(fr)._d)
+                end.update(i_=k, broke_=broke)
+                st.ghost.setdefault("loop_end", {})[ordinal] = View(end)
+
         if self.truth(st, self.eval(st, s.test, fr)):
-            d0 = spec.decreases(self.loop_view(fr, None, None, entry)) if spec.decreases else None
+            d0 = spec.decreases(self.loop_view(fr, k, None, entry)) if spec.decreases else None
             if d0 is not None:
                 st.oblige(f"{name}/decreases-bounded", V._cmp(">=", d0, 0), "termination")
             mark = len(st.trace)
@@ -669,15 +733,17 @@ class Interp:
                 self.exec_block(st, s.body, fr)
             except _Break:
                 self._check_watched(watched, name)
+                left(True)
                 return
             except _Continue:
                 pass
             self._check_watched(watched, name)
-            v2 = self.loop_view(fr, None, None, entry, mark)
+            v2 = self.loop_view(fr, k + 1 if counting else None, None, entry, mark)
             self.check_inv(st, spec, v2, f"{name}/inv-preserve")
             if d0 is not None:
                 st.oblige(f"{name}/decreases", V._cmp("<", spec.decreases(v2), d0), "termination")
             raise PathEnd()
+        left(False)
         self.exec_block(st, s.orelse, fr)
 
     def loop_view(self, fr, i, iter_seq=None, entry=None, mark=None):
@@ -844,7 +910,7 @@ class Interp:
                     break
                 if i > self.max_unroll:
                     raise Unsupported("for loop unrolled beyond the limit")
-                self.assign_target(st, s.target, Q.seq_get(seq, i), fr)
+                self.assign_target(st, s.target, self._iter_elem(seq, i), fr)
                 i += 1
                 try:
                     self.exec_block(st, s.body, fr)
@@ -865,7 +931,7 @@ class Interp:
         self.assume_inv(st, spec, self.loop_view(fr, i, seq, entry))
         watched = self._watch_lists(s, spec, fr)
         if st.branch(V._cmp("<", i, n)):
-            elem = Q.seq_get(seq, i)
+            elem = self._iter_elem(seq, i)
             self.assign_target(st, s.target, elem, fr)
             mark = len(st.trace)
             st.ghost["loop_elem"] = elem
@@ -881,6 +947,14 @@ class Interp:
             self.check_inv(st, spec, self.loop_view(fr, i + 1, seq, entry, mark), f"{name}/inv-preserve")
             raise PathEnd()
         self.exec_block(st, s.orelse, fr)
+
+    @staticmethod
+    def _iter_elem(seq, i):
+        """Element i handed out by a `for` loop: a row of a nested list is a list (read-only view, see seqs.RowItem)."""
+        e = Q.seq_get(seq, i)
+        if Q.is_nested(seq.seq if isinstance(seq, LRef) else seq) and isinstance(e, SSeq):
+            return Q.RowItem(e, seq if isinstance(seq, LRef) else None)
+        return e
 
     def _entry_snapshot(self, fr):
         """Values at loop entry (before the havoc): locals, and a snapshot of `self`'s fields."""
@@ -909,6 +983,14 @@ class Interp:
             return tuple(it)
         if isinstance(it, ModelObj):
             return it.py_iter(self, st)
+        if isinstance(it, SOpaque):
+            # an opaque individual that its protocol knows how to iterate (`iter(ip, st, obj)` -> a sequence value),
+            # e.g. a node of an algebraic data type whose children are individuals of the same kind
+            from .api import PROTOCOLS as _P
+
+            p = _P.get(it.kind)
+            if p is not None and hasattr(p, "iter"):
+                return p.iter(self, st, it)
         if isinstance(it, DRef):
             return tuple(it.d.keys())
         if isinstance(it, dict):
@@ -1293,6 +1375,13 @@ class Interp:
             return V._cmp({ast.Lt: "<", ast.LtE: "<=", ast.Gt: ">", ast.GtE: ">="}[t], a, b)
         if a is None or b is None:
             raise PyRaise(SExc(TypeError, ("'<' not supported between instances of NoneType and int",)))
+        for x, y, refl in ((a, b, False), (b, a, True)):
+            # an ordering comparison with a modelled value (ModelObj): the model answers (`py_compare(ip, st, op, other,
+            # reflected)` -> a truth value, or raises the TypeError CPython raises, e.g. a modelled str against an int)
+            if isinstance(x, ModelObj) and hasattr(x, "py_compare"):
+                r = x.py_compare(self, st, op, y, refl)
+                if r is not NotImplemented:
+                    return r
         raise Unsupported(f"ordering comparison of {type(a).__name__} and {type(b).__name__}")
 
     def is_(self, st, a, b):
@@ -1573,6 +1662,8 @@ class Interp:
             raise Unsupported(f"attribute {name} of {type(obj).__name__}")
         if isinstance(obj, tuple) and name in ("index", "count"):
             return Method(obj, name)
+        if isinstance(obj, tuple) and getattr(obj, "nt_cls", None) is not None and name in obj.nt_cls._fields:
+            return obj[obj.nt_cls._fields.index(name)]  # a NamedTuple component by name (builtins_model.NTuple)
         if obj is None:
             raise PyRaise(SExc(AttributeError, (f"'NoneType' object has no attribute '{name}'",)))
         # concrete python object: module, class, enum, str ...
@@ -1580,6 +1671,12 @@ class Interp:
             v = getattr(obj, name)
         except AttributeError as ex:
             raise PyRaise(SExc(AttributeError, ex.args)) from None
+        # contract-file hook `module_objects = {"<module name>.<attribute>": model value}`: a module-level singleton
+        # OBJECT of the repository (e.g. `urwid.text_layout.default_layout`) that the contract file models as an
+        # opaque individual; without an entry the real object is returned as before
+        mo = getattr(getattr(self.task, "c", None), "module_objects", None)
+        if mo and inspect.ismodule(obj) and f"{obj.__name__}.{name}" in mo:
+            return mo[f"{obj.__name__}.{name}"]
         return v
 
     def obj_getattr(self, st, obj: SObj, name):
@@ -1751,7 +1848,22 @@ class Interp:
         names = {x.id for x in ast.walk(g.target) if isinstance(x, ast.Name)}
         uses_target = any(isinstance(x, ast.Name) and x.id in names for x in ast.walk(e.elt))
 
+        # the elements are evaluated on demand: a versioned model object (a dict with symbolic keys) that `elt` reads
+        # must still hold the value it had when the comprehension was built, else the lazy reading would differ from
+        # CPython's eager one -> Unsupported
+        versions = []
+        for nm in sorted({x.id for x in ast.walk(e) if isinstance(x, ast.Name)}):
+            try:
+                ov = fr.lookup(nm)
+            except PyRaise:
+                continue
+            if isinstance(ov, ModelObj) and hasattr(ov, "py_version"):
+                versions.append((nm, ov, ov.py_version()))
+
         def getter(i):
+            for nm, ov, ver in versions:
+                if ov.py_version() is not ver:
+                    raise Unsupported(f"comprehension over a sequence of symbolic length reads `{nm}`, which was mutated after the comprehension was built")
             cfr = Frame(fr.fn, fr.mod, parent=fr)
             cfr.self_obj = fr.self_obj
             self.assign_target(V.cur(), g.target, Q.seq_get(seq, i), cfr)
@@ -1759,6 +1871,7 @@ class Interp:
 
         r = SSeq(n, getter, None, None, "comp")
         r.lazy = True
+        r.comp_over = seq.seq if isinstance(seq, LRef) else seq  # provenance (pyvc.fmap: pairs computed from m.items())
         h = getattr(self.task.c, "comprehension_sum", None)
         if h is not None:
             sv = h(self, st, e, fr, seq)
